@@ -6,12 +6,9 @@
 Require Import Verif.Model.Base Verif.Model.Mode Verif.Model.Level Verif.Model.Attrs Verif.Model.Encode Verif.Model.Ansi.
 Require Import Verif.Corr.Enc.
 
-Definition caller_ok (c : option (bytes * Z * bytes)) : bool :=
-  match c with None => true | Some (file, _, fn) => text_ok file && text_ok fn end.
-
 (* the hypotheses of the C06 theorems that speak about the configuration and the attributes *)
 Definition hyp_cfg (g : registry) (c : ecfg) (attrs : list attr) : bool :=
-  colors_ok g && text_ok (e_ts c) && text_ok (e_name c) && caller_ok (e_caller c)
+  colors_ok g && text_ok (e_ts c) && text_ok (e_name c) && caller_texts_ok (e_caller c)
   && text_ok (tag_of g (e_tagw c) (e_lvl c)) && attrs_ok attrs.
 
 Definition blank_always (c : ecfg) (msg : bytes) : bool := (e_lvl c =? lv_always) && all_blank msg.
